@@ -56,11 +56,12 @@ IMPL = {
     "value.addsub": lambda a, b: F(value.subtract(value.add(num(a), num(b)), num(b))),
     "meter.valid_beat_duration": guarded(lambda b: meter.valid_beat_duration(num(b))),
     "meter.is_valid": guarded(lambda c, b: meter.is_valid((c, num(b)))),
+    "value.septuplet8": lambda q: [F(value.septuplet(num(q), False)), F(value.tuplet(num(q), 7, 8))],
     "meter.is_simple": guarded(lambda c, b: meter.is_simple((c, num(b)))),
     "meter.is_compound": guarded(lambda c, b: meter.is_compound((c, num(b)))),
     "meter.is_asymmetrical": guarded(lambda c, b: meter.is_asymmetrical((c, num(b)))),
 }
-NO_MODEL = {"value.named_tuplet", "value.addsub"}
+NO_MODEL = {"value.named_tuplet", "value.addsub", "value.septuplet8"}
 
 def has_model(c):
     return c["fn"] not in NO_MODEL
@@ -79,6 +80,7 @@ def cases(tier, rng):
             yield Case("value.dots", [F(b), n], "dots/%d" % n)
         for name in ("triplet", "quintuplet", "septuplet"):
             yield Case("value.named_tuplet", [name, F(b)], "tuplet/named", model=False)
+        yield Case("value.septuplet8", [F(b)], "tuplet/septuplet-in-eighths", model=False)
         for a, c in ((3, 2), (5, 4), (7, 4), (7, 8)):
             yield Case("value.tuplet", [F(b), a, c], "tuplet")
         # tuplets OF DOTTED values, by the named helpers and by the general formula: the same double as r1 * value / r2
@@ -137,6 +139,10 @@ def cases(tier, rng):
         for b in (2 ** 54, 2 ** 54 + 2, 2 ** 60 + 3, 2 ** 64 - 2, 2 ** 70, 3 * 2 ** 70):
             for f in ("meter.is_valid", "meter.is_simple", "meter.is_compound", "meter.is_asymmetrical"):
                 yield Case(f, [c, b], f.split(".")[1] + "/big")
+    for c in (10 ** 17 + 1, 10 ** 17 + 2, 3 * 10 ** 17, 3 * 10 ** 17 + 1, 2 ** 53 + 1, 2 ** 53 + 2, 3 * 2 ** 60, 3 * 2 ** 60 + 1, 2 ** 64 + 1, 9 * 2 ** 70 + 2):
+        for b in (4, 8, 3):
+            for f in ("meter.is_valid", "meter.is_simple", "meter.is_compound", "meter.is_asymmetrical"):
+                yield Case(f, [c, b], f.split(".")[1] + "/big-count")
     for c in range(-3, 25):
         for b in [1, 2, 3, 4, 6, 8, 16, 0, -4, 12, 64, F(1, 2), F(5, 2), "inf", "nan", 1024, 1000]:
             for f in ("meter.is_valid", "meter.is_simple", "meter.is_compound", "meter.is_asymmetrical"):
@@ -178,6 +184,8 @@ def oracle(c, obs):
         if c["tag"].endswith("dotted") and not isinstance(obs, Err):
             return None if obs == F(a[1] * float(a[0]) / a[2]) else "tuplet() is not the double r1 * value / r2"
         return None if close(obs, F(a[1]) * F(a[0]) / a[2]) else "tuplet() is not the ratio formula"
+    if fn == "value.septuplet8":
+        return None if obs[0] == obs[1] else "septuplet(value, in_fourths=False) differs from the general ratio formula 7:8"
     if fn == "value.named_tuplet":
         return None if obs[0] == obs[1] else "tuplet helper differs from the general ratio formula"
     if fn in ("value.add", "value.subtract"):
